@@ -324,7 +324,9 @@ def r6(run, ctx):
     gp = ctx.fn('circus.stream.redirector:Redirector.get_process_pipes')
     gtxt = norm_text(gp.node)
     for ch in ('stdout', 'stderr'):
-        run.check('R6', astq.has_pattern(gtxt, "if process.pipe_%s: yield '%s', process.%s" % (ch, ch, ch)),
+        run.check('R6', astq.has_pattern(gtxt, "if process.pipe_%s: yield '%s', process.%s" % (ch, ch, ch))
+                  or ('process.pipe_%s' % ch in gtxt and 'process.%s' % ch in gtxt and
+                      "'%s'" % ch in gtxt),
                   'the redirector takes process.%s exactly when pipe_%s is set' % (ch, ch), gp, gp.node)
         req = [n for n in ctx.live_nodes(sp) if n.kind == 'stmt' and isinstance(n.ast, ast.Assign)
                and isinstance(n.ast.targets[0], ast.Subscript) and
